@@ -72,13 +72,20 @@ def build_plan(tier, seed):
     # rows that already carry the pipeline's own bookkeeping columns (an earlier result fed back in, a CSV with an index
     # column): 'solved', 'id' and 'input_reaction' are (re)computed by every call, whatever arrives in them
     mix = kinds["declined"] + kinds["mcs"][:3] + kinds["rule"][:3] + kinds["balanced"][:3] + \
-        ["CCC(=O)OCC>>CCC(=O)O", "CC(=O)OC=C>>CC(=O)O", "CCOC(=O)C>>CC(=O)N"]
+        ["CCC(=O)OCC>>CCC(=O)O", "CC(=O)OC=C>>CC(=O)O", "CCOC(=O)C>>CC(=O)N",
+         # carbon-balanced, one-sided imbalance that no rule completes
+         "CP(C)C>>CP(C)(C)=S", "C[Hg]Cl>>CCl", "CCO>>CCO.[Se]", "CC[Se]CC>>CCCC"]
     ids = list(range(len(mix)))
     rng.shuffle(ids)
     fed = [{"reaction": s_, "solved": True, "id": ids[j], "input_reaction": "CCO>>CCO", "note": "n%d" % j}
            for j, s_ in enumerate(mix)]
     runs.append({"name": "refeed_flags", "inputs": fed, "form": "dict", "batch_size": None, "n_jobs": 4, "threshold": 0})
     fed2 = [dict(r_, id="row-%d" % (100 - j), solved=(j % 2 == 0)) for j, r_ in enumerate(fed)]
+    # ... and stale values in the columns the stages compute for themselves
+    fed3 = [dict(r_, Unbalance="Balance", Diff_formula={"C": 1}, carbon_balance_check="balanced", reactants="C", products="C",
+                 new_reaction="C>>C") for r_ in fed]
+    runs.append({"name": "refeed_internal", "inputs": fed3, "form": "dict", "batch_size": None, "n_jobs": 4, "threshold": 0})
+    runs.append({"name": "refeed_internal_b4", "inputs": fed3, "form": "dict", "batch_size": 4, "n_jobs": 4, "threshold": 0})
     runs.append({"name": "refeed_flags_b4", "inputs": fed2, "form": "dict", "batch_size": 4, "n_jobs": 4, "threshold": 0})
     # the same atom-mapped reaction string several times in one batch (and across batches)
     mp = ["[CH3:1][CH2:2][Br:3].[NH3:4]>>[CH3:1][CH2:2][NH2:4]", "[CH3:1][C:2](=[O:3])[O:4][CH2:5][CH3:6]>>[CH3:6][CH2:5][OH:4]",
@@ -86,6 +93,13 @@ def build_plan(tier, seed):
     dup = mp + mp[::-1] + [mp[0], mp[0], mp[2]]
     runs.append({"name": "dup_mapped", "inputs": dup, "form": "list", "batch_size": None, "n_jobs": 4, "threshold": 0})
     runs.append({"name": "dup_mapped_b5", "inputs": dup, "form": "dict", "batch_size": 5, "n_jobs": 4, "threshold": 0})
+    # another name for the reaction column (the shipped validation sets use 'reactions'): every kind of row and
+    # every redox class again
+    other = kinds["balanced"][:3] + kinds["rule"][:3] + kinds["mcs"][:3] + kinds["declined"][:3] + gen.redox_triggers(rng, 19)
+    runs.append({"name": "col_reactions", "inputs": [{"reactions": s_, "note": "x"} for s_ in other], "form": "dict",
+                 "reaction_col": "reactions", "batch_size": None, "n_jobs": 8, "threshold": 0})
+    runs.append({"name": "col_reactions_b5", "inputs": [{"reactions": s_} for s_ in other], "form": "dict",
+                 "reaction_col": "reactions", "batch_size": 5, "n_jobs": 8, "threshold": 0.5})
     # thresholds sitting on a reported confidence (learned from the run "only_mcs" in the same process)
     thr_in = kinds["mcs"] + kinds["rule"][:2] + kinds["balanced"][:2]
     for k in range(3 if quick else 6):
